@@ -1,0 +1,86 @@
+//go:build verif
+// +build verif
+
+package group_create
+
+import (
+	"com.tuntun.rangers/node/src/common"
+	"com.tuntun.rangers/node/src/consensus/access"
+	"com.tuntun.rangers/node/src/consensus/groupsig"
+	"com.tuntun.rangers/node/src/consensus/model"
+	"com.tuntun.rangers/node/src/consensus/net"
+	"com.tuntun.rangers/node/src/middleware/log"
+	"strconv"
+)
+
+// Verification hook H3a: drive the node's own distributed key generation for
+// n in-memory members, and inject the joined-group storage the signing rounds
+// look member public keys up in. Nothing here changes behaviour.
+
+func verifInitLoggers() {
+	if groupCreateLogger == nil {
+		groupCreateLogger = log.GetLoggerByIndex(log.GroupCreateLogConfig, strconv.Itoa(common.InstanceIndex))
+	}
+	if groupCreateDebugLogger == nil {
+		groupCreateDebugLogger = log.GetLoggerByIndex(log.GroupCreateDebugLogConfig, strconv.Itoa(common.InstanceIndex))
+	}
+}
+
+// VerifSetup sets the fields of GroupCreateProcessor that the signing rounds use.
+func VerifSetup(mi model.SelfMinerInfo, store *access.JoinedGroupStorage, ns net.NetworkServer) {
+	verifInitLoggers()
+	GroupCreateProcessor.minerInfo = mi
+	GroupCreateProcessor.joinedGroupStorage = store
+	GroupCreateProcessor.NetServer = ns
+}
+
+type VerifDKGResult struct {
+	IDs      []groupsig.ID
+	SignSKs  []groupsig.Seckey // member i's aggregated signing key
+	SignPKs  []groupsig.Pubkey // its public share
+	GroupPKs []groupsig.Pubkey // group public key as computed by member i
+	SeedSKs  []groupsig.Seckey // dealer i's constant term
+	SeedPKs  []groupsig.Pubkey
+	Results  []int // last handleSharePiece result per member (1 = aggregated)
+	K        int
+}
+
+// VerifDKG runs NewGroupNodeInfo / genSharePiece / handleSharePiece /
+// aggregateKeys for every member, delivering dealer shares in the given order
+// (order[i] lists dealer indexes as received by member i; nil = natural order).
+func VerifDKG(members []*model.SelfMinerInfo, groupHash common.Hash, order [][]int) *VerifDKGResult {
+	verifInitLoggers()
+	n := len(members)
+	res := &VerifDKGResult{}
+	ids := make([]groupsig.ID, n)
+	for i, m := range members {
+		ids[i] = m.ID
+	}
+	res.IDs = ids
+	nodes := make([]*groupNodeInfo, n)
+	pieces := make([]map[string]groupsig.Seckey, n)
+	for i, m := range members {
+		nodes[i] = NewGroupNodeInfo(m, groupHash, n)
+		pieces[i] = nodes[i].genSharePiece(ids)
+		res.SeedSKs = append(res.SeedSKs, nodes[i].genSeedSecKey())
+		res.SeedPKs = append(res.SeedPKs, nodes[i].getSeedPubKey())
+	}
+	res.K = nodes[0].threshold()
+	for i := 0; i < n; i++ {
+		last := 0
+		for jj := 0; jj < n; jj++ {
+			j := jj
+			if order != nil && order[i] != nil {
+				j = order[i][jj]
+			}
+			sp := model.SharePiece{Share: pieces[j][ids[i].GetHexString()], Pub: nodes[j].getSeedPubKey()}
+			last = nodes[i].handleSharePiece(ids[j], &sp)
+		}
+		res.Results = append(res.Results, last)
+		sk := nodes[i].getSignSecKey()
+		res.SignSKs = append(res.SignSKs, sk)
+		res.SignPKs = append(res.SignPKs, *groupsig.GeneratePubkey(sk))
+		res.GroupPKs = append(res.GroupPKs, nodes[i].getGroupPubKey())
+	}
+	return res
+}
